@@ -36,6 +36,12 @@ class _Continue(Exception):
     pass
 
 
+class _BlockReturn(Exception):
+    """`return` inside the block of a with statement whose manager is a generator: unwinds through the manager's frames"""
+    def __init__(self, value):
+        self.value = value
+
+
 class PathRaises(Exception):
     """The explored path ends in a `raise`."""
 
@@ -181,6 +187,7 @@ class Interp:
             self.n_calls = 0
         self.loop_stack = []
         self.loop_kinds = []
+        self.imperative_grad = []   # grad modes switched on by statement, innermost last
         self.memo = {}   # functools.lru_cache tables: qualified name -> [(key, value)]
 
     # ------------------------------------------------------------------ driver
@@ -443,6 +450,7 @@ class Interp:
         if fi.qualname in cache:
             return cache[fi.qualname]
         v = dataclasses.replace(fi, decorators=[d for d in fi.decorators if d in PASS_DECORATORS])
+        v.is_raw = True   # the undecorated function: calling it from the wrapper is part of the one call of the public name
         env = {"__module__": fi.module, "__parent__": None, "__cls__": fi.cls}
         n_ev = len(self.events)
         for d in reversed(fi.node.decorator_list):
@@ -603,10 +611,12 @@ class Interp:
             return self.call_function(f.fi, args, kwargs, self_obj=f.obj)
         if isinstance(f, FuncInfo) and f.cls is not None and not f.is_staticmethod and not f.is_classmethod and args:
             # a function taken off its class (Class.method, or the undecorated method a decorator was handed): self is the first argument
-            self.ev("call", callee=f.qualname, recv=args[0], args=args[1:], kwargs=dict(kwargs), node=node, bound=self.bind_names(f, args[1:], kwargs, True))
+            if not getattr(f, "is_raw", False):
+                self.ev("call", callee=f.qualname, recv=args[0], args=args[1:], kwargs=dict(kwargs), node=node, bound=self.bind_names(f, args[1:], kwargs, True))
             return self.call_function(f, list(args[1:]), kwargs, self_obj=args[0])
         if isinstance(f, FuncInfo):
-            self.ev("call", callee=f.qualname, recv=None, args=args, kwargs=dict(kwargs), node=node, bound=self.bind_names(f, args, kwargs, False))
+            if not getattr(f, "is_raw", False):
+                self.ev("call", callee=f.qualname, recv=None, args=args, kwargs=dict(kwargs), node=node, bound=self.bind_names(f, args, kwargs, False))
             return self.call_function(f, args, kwargs)
         if isinstance(f, Closure):
             self.ev("call", callee=getattr(f.node, "name", "<lambda>"), recv=None, args=args, kwargs=dict(kwargs), node=node)
@@ -755,6 +765,9 @@ class Interp:
     # ------------------------------------------------------------------ externals
     def call_ext(self, name, args, kwargs, node):
         short = name.split(".")[-1]
+        if name.startswith(("torch.Tensor.", "Tensor.")) and args and isinstance(args[0], Term):
+            # the method taken off the class and called with the tensor first (a table of `Tensor.cummax` / `Tensor.cummin`)
+            return self.tensor_method(args[0], short, list(args[1:]), kwargs, node)
         if name in ("math.ceil", "math.floor", "math.sqrt", "math.log", "math.exp", "math.log10"):
             if all(is_num(a) for a in args):
                 return getattr(math, short)(*args)
@@ -902,6 +915,8 @@ class Interp:
                 self.ev("lossy_scalar", value=args[0], how=f"torch.{opname}(<python float expression>) without dtype", node=node)
             if opname in ("set_grad_enabled", "enable_grad", "no_grad"):
                 return Obj("torch.gradmode", opname, {"mode": opname, "arg": args[0] if args else None})
+            if opname == "is_grad_enabled" and not args:
+                return Sym(f"grad_mode_before#{len(self.events)}", ("bool", "grad_state"))
             return Op(opname, args, kwargs)
         self.ev("ext_call", callee=name, args=args, kwargs=dict(kwargs), node=node)
         return Op("ext:" + name, args, kwargs)
@@ -917,6 +932,18 @@ class Interp:
                 return
             v = self.eval(st.value, env)
             c = st.value
+            if isinstance(v, Obj) and v.cls == "torch.gradmode" and v.attrs.get("mode") == "set_grad_enabled":
+                # torch.set_grad_enabled(x) as a statement switches the mode from here on: a region that lasts until the mode saved by
+                # torch.is_grad_enabled() is put back (or the path ends)
+                arg_ = v.attrs.get("arg")
+                if isinstance(arg_, Sym) and "grad_state" in arg_.tags:
+                    if not self.imperative_grad:
+                        raise Unsupported("torch.set_grad_enabled(<saved mode>) without a switch before it")
+                    self.ev("with_exit", ctx=[self.imperative_grad.pop()], node=st)
+                else:
+                    self.imperative_grad.append(v)
+                    self.ev("with_enter", ctx=[v], node=st)
+                return
             if isinstance(v, Op):
                 self.ev("discard", value=v, node=st)
             if (isinstance(c, ast.Call) and isinstance(c.func, ast.Attribute) and c.func.attr.endswith("_")
@@ -965,6 +992,13 @@ class Interp:
             raise _Continue()
         elif isinstance(st, ast.Raise):
             exc = ast.unparse(st.exc) if st.exc is not None else "re-raise"
+            if isinstance(st.exc, ast.Name):
+                try:
+                    v_ = self.lookup(st.exc.id, env)
+                except Unsupported:
+                    v_ = None
+                if isinstance(v_, Obj) and "exception" in v_.tags:
+                    exc = f"{v_.cls.rsplit('.', 1)[-1]}({', '.join(str(x_)[:80] for x_ in v_.attrs.get('args', ()))})"   # `raise error` of an exception built earlier
             self.ev("raise", exc=exc, node=st)
             raise PathRaises(exc, st)
         elif isinstance(st, ast.Assert):
@@ -996,6 +1030,8 @@ class Interp:
                     except _Return as r_:
                         if cenv["__cm_body__"][4] != 1:
                             raise Unsupported("a context manager that returns before it yields")
+                    except _BlockReturn as b_:
+                        raise _Return(b_.value)
                 finally:
                     self.stack.pop()
                     self.depth -= 1
@@ -1432,7 +1468,10 @@ class Interp:
             body_, caller_env, target_, st_ = slot[:4]
             if target_ is not None:
                 self.assign(target_, v, caller_env, st_)
-            self.exec_block(body_, caller_env)
+            try:
+                self.exec_block(body_, caller_env)
+            except _Return as r_:
+                raise _BlockReturn(r_.value)
             return None
         if self.loop_stack:
             lc = self.loop_stack[-1]
@@ -2091,10 +2130,20 @@ class Interp:
             return Op(name, (Sym(repr(a[0])),)) if not isinstance(a[0], (list, tuple)) else (sorted(a[0]) if name == "sorted" else list(reversed(a[0])))
         if name == "print":
             return None
+        if name in ("KeyError", "TypeError", "ValueError", "AttributeError", "RuntimeError", "IndexError", "NotImplementedError", "AssertionError", "StopIteration", "Exception", "DeprecationWarning"):
+            return Obj("builtins." + name, "exc", {"args": tuple(a)}, {"exception"})   # an exception object as a value (raised later, or yielded)
         if name == "iter":
             return a[0]
         if name == "next" and isinstance(a[0], Obj) and a[0].cls == "generator" and len(a) == 1:
             return self.generator_next(a[0], node)
+        if name == "next" and isinstance(a[0], EagerGen) and not a[0].effects and len(a) <= 2:
+            # a finite generator without effects, drained where it was created: its first element (the conditions of the later ones have
+            # been decided as well, which adds paths but changes no value)
+            if a[0]:
+                return a[0][0]
+            if len(a) == 2:
+                return a[1]
+            raise PathRaises("StopIteration", node)
         if name == "next":
             raise Unsupported("next() on anything but a generator expression over a concrete sequence")
         if name == "dict":
